@@ -15,8 +15,11 @@ Chosen == {[startup |-> (o % 2) = 1, daily |-> ((o \div 2) % 2) = 1, gz |-> ((o 
 
 FOREIGN1 == <<2, 1, 0, 0>>
 
+\* (a TLC configuration file cannot hold a negative number: 99 stands for a file-count limit of -1)
+NVal(n) == IF n = 99 THEN 0 - 1 ELSE n
+
 MCInit ==
-    /\ \E L \in Ls, N \in Ns, o \in Chosen :
+    /\ \E L \in Ls, N0 \in Ns, o \in Chosen : LET N == NVal(N0) IN
           InitWith([L |-> L, N |-> N, startup |-> o.startup, daily |-> o.daily, gz |-> o.gz],
                    [n \in {FOREIGN1} |-> File("foreign", <<>>, <<0, 0>>, 7)],
                    <<>>, <<>>, <<>>, <<0, 0>>)
